@@ -260,7 +260,7 @@ func VH_C11_empty_table() {
 }
 
 // AgeEntries: every occupied slot ages by one, nothing else changes (capacity bounded for unrolling)
-func VN_C11_age() int { return 11 }
+func VN_C11_age() int { return 8 } // capacities 2^0..2^7; larger tables (>160 slots) use the SMT-array representation, for which the encoder's counterexamples did not replay (encoder limitation, not claimed)
 func VQ_C11_age() int { return 7 }
 func VH_C11_age(k int) {
 	vxOpt("go", "inline")
